@@ -1,20 +1,9 @@
-"""Per-property MANIFEST data (claims, technique, level notes, N/A reasons).  tools/gen_manifest.py
-turns this into MANIFEST.json; a property appears under `checks` only when sa/rules/<id>.py exists."""
+"""N/A reasons and the shared trusted-base text.  Each claimed property carries its own CLAIM dict in
+sa/rules/<id>.py; tools/gen_manifest.py assembles MANIFEST.json from both."""
 
 TRUST = ("Trusted base: clang-14 front end and the analysis-only shims in /verif/shim (source_location, consteval->constexpr, "
          "Overloaded deduction guide, btcsignals typename, range-pipe rewrite), the bcfacts extractor, the guard normaliser "
          "(truth tables over canonical atoms), and the hand-written spec tables (from the property text and the BIPs). ")
-
-CLAIMS = {
-    "C03": dict(
-        technique="static analysis: LADDER (EXACT) reject-ladder conformance by truth tables over canonical guard atoms + predicate twins + constants",
-        text="Decides, for all inputs, the decision structure of CheckTransaction: every accepting path excludes each of the nine spec "
-             "reject conditions (per-element ones via complete loops), every rejection is a spec rung with its reason/result and fires only "
-             "under its spec condition, in spec order; MoneyRange/IsCoinBase/IsNull equal their definitions. A unit test samples inputs; "
-             "this quantifies over all paths.",
-        note="Not decided: GetSerializeSize arithmetic, std::set semantics (opaque atoms). " + TRUST,
-        ref="DESIGN.md §3 C03"),
-}
 
 NOT_APPLICABLE = {
     "C24": "feerate-diagram optimality / never-worse is a property of algorithm output over all graphs; no structural necessary condition short of re-proving the algorithm",
